@@ -253,11 +253,20 @@ func (w *World) watchApp(app protocol.EUI) {
 }
 
 // inject one packet as the forwarder would hand it to the pipeline
-func (w *World) inject(p server.GatewayPacket) {
+func (w *World) inject(p server.GatewayPacket) bool {
 	w.mu.Lock()
 	w.inflight++
 	w.mu.Unlock()
-	w.fwd.out <- p
+	select {
+	case w.fwd.out <- p:
+		return true
+	case <-time.After(10 * time.Second):
+		// the pipeline no longer takes input from the forwarder
+		w.mu.Lock()
+		w.inflight--
+		w.mu.Unlock()
+		return false
+	}
 }
 
 // wait until no goroutine of the pipeline is running and no message is in flight
